@@ -73,16 +73,27 @@ Definition resolve_ctx (P: prims) (d: dir) (c: pctx) : option (slot * winner) :=
 Definition ref_outcome (P: prims) (d: dir) (c: pctx) (path: list node) : option (pctx * (slot * winner)) :=
   first_hit (resolve_ctx P d) (ctxs P c path).
 
-(* depth of the winning position *)
-Fixpoint hit_depth (P: prims) (d: dir) (cs: list pctx) : option nat :=
+(* engine names select a built-in behaviour: they do not end the descent *)
+Definition eff_resolve (P: prims) (d: dir) (c: pctx) : option (slot * winner) :=
+  match resolve_ctx P d c with
+  | Some (_, WEngine _) => None
+  | r => r
+  end.
+
+Fixpoint ref_compile (P: prims) (d: dir) (cs: list pctx) (depth: nat) : option (nat * (slot * winner)) :=
   match cs with
   | [] => None
-  | c :: r => match resolve_ctx P d c with Some _ => Some 0 | None => option_map S (hit_depth P d r) end
+  | c :: r => match eff_resolve P d c with Some sw => Some (depth, sw) | None => ref_compile P d r (S depth) end
   end.
+
 
 (* ---- encodings ---- *)
 Definition mk_spec4 (t o a md: kv) : kv :=
   KNs [("type", t); ("origin_type", o); ("annotated_type", a); ("metadata", md)].
+
+(* the ValueSpec of a position *)
+Definition spec_of (P: prims) (c: pctx) : kv :=
+  mk_spec4 (x_decl c) (p_org P (x_decl c)) (x_ann c) (enc_meta (x_S c)).
 
 Definition enc_flags5 (f: flags) : kv :=
   KNs [("TO_DICT_ADD_OMIT_NONE_FLAG", KBool (g_on f)); ("TO_DICT_ADD_BY_ALIAS_FLAG", KBool (g_ba f));
